@@ -59,7 +59,7 @@ Qed.
 
 Lemma zread_err n bs e : zread n bs = Err e -> e = EUnexpectedEOF.
 Proof.
-  unfold zread. destruct (Nat.ltb (length bs) n); intros H; [now injection H|discriminate H].
+  rewrite zread_unfold. destruct (Nat.ltb (length bs) n); intros H; [now injection H|discriminate H].
 Qed.
 
 Lemma zread_i8_err bs e : zread_i8 bs = Err e -> e = EUnexpectedEOF.
@@ -76,7 +76,7 @@ Qed.
 
 Lemma zread_bytes_err bs e : zread_bytes bs = Err e -> e = EUnexpectedEOF.
 Proof.
-  unfold zread_bytes. destruct (zread_i32 bs) as [[len r]|e'|w] eqn:E; cbn [bind]; intros H.
+  rewrite zread_bytes_unfold. destruct (zread_i32 bs) as [[len r]|e'|w] eqn:E; cbn [bind]; intros H.
   - destruct (len <=? 0); [discriminate H|].
     destruct (Z.of_nat (length r) <? len); [now injection H|]. eapply zread_err; exact H.
   - injection H as <-. eapply zread_i32_err; exact E.
@@ -474,7 +474,7 @@ Qed.
 Lemma zread_bytes_app msg rest : 0 < blen msg <= i32_max ->
   zread_bytes (enc_i32 (blen msg) ++ msg ++ rest) = Ok (msg, rest).
 Proof.
-  intros H. unfold i32_max in H. unfold zread_bytes.
+  intros H. unfold i32_max in H. rewrite zread_bytes_unfold.
   rewrite zread_i32_app by (unfold in_i32; lia). cbn [bind].
   destruct (blen msg <=? 0) eqn:E1; [lia|].
   destruct (Z.of_nat (length (msg ++ rest)) <? blen msg) eqn:E2.
@@ -487,10 +487,10 @@ Lemma zread_bytes_ser_opt o rest : blen (view_opt o) <= i32_max ->
 Proof.
   intros H. destruct o as [b|]; cbn [ser_opt view_opt] in *.
   - rewrite <- app_assoc. destruct b as [|x b].
-    + unfold zread_bytes. cbn [app]. change (blen []) with 0.
+    + rewrite zread_bytes_unfold. cbn [app]. change (blen []) with 0.
       rewrite zread_i32_app by (unfold in_i32; lia). reflexivity.
     + apply zread_bytes_app. split; [|exact H]. unfold blen. cbn [length]. lia.
-  - unfold zread_bytes. rewrite zread_i32_app by (unfold in_i32; lia). reflexivity.
+  - rewrite zread_bytes_unfold. rewrite zread_i32_app by (unfold in_i32; lia). reflexivity.
 Qed.
 
 Lemma pm_body_ser dbg attr k v :
